@@ -1,7 +1,7 @@
 (* C18 proofs, part a: strings, sorted sets, association lists, store/lookup, load_recs *)
 From Coq Require Import ZArith List Bool Lia Permutation Sorting.Sorted.
 Import ListNotations.
-From SCMO Require Import Lib.Val Model.C18.
+From SCMO Require Import Lib.Val Gen.GenAlleles Model.C18 Proofs.C18_s.
 Open Scope Z_scope.
 
 (* ------------------------------------------------------------------ string comparison *)
@@ -236,7 +236,7 @@ Lemma load_recs_lookup cf c p recs : forall t,
 Proof.
   unfold load_recs, last_inf. induction recs as [|r recs IH]; intros t; cbn [fold_left]; [reflexivity|].
   rewrite IH. f_equal. unfold at_site. destruct (informative cf r) as [bm|].
-  - rewrite lookup2_store. rewrite (seqb_sym c (r_chrom r)), (Z.eqb_sym p). destruct (seqb (r_chrom r) c && (r_pos r - 1 =? p)); reflexivity.
+  - rewrite lookup2_store, store_pos_shape. rewrite (seqb_sym c (r_chrom r)), (Z.eqb_sym p). destruct (seqb (r_chrom r) c && (r_pos r - 1 =? p)); reflexivity.
   - destruct (seqb (r_chrom r) c && (r_pos r - 1 =? p)); reflexivity.
 Qed.
 Lemma load_recs_amem cf recs : forall t c,
@@ -272,7 +272,7 @@ Qed.
 (* the sentinel sits at position -1 and does not disturb positions >= 0 *)
 Lemma add_sentinel_lookup t c c' p : 0 <= p -> lookup2 (add_sentinel t c) c' p = lookup2 t c' p.
 Proof.
-  intros Hp. unfold add_sentinel. rewrite lookup2_store.
+  intros Hp. unfold add_sentinel. rewrite lookup2_store. change g_sentinel_pos with (-1).
   destruct (p =? -1) eqn:E; [apply Z.eqb_eq in E; lia|]. rewrite andb_false_r. reflexivity.
 Qed.
 Lemma add_sentinel_amem t c c' : amem seqb (add_sentinel t c) c' = seqb c' c || amem seqb t c'.
